@@ -28,7 +28,12 @@ def case_strategy(draw, tier):
     t = draw(gen_tree.tree_case(min_n=1, max_n=max_n, regimes=["lattice"], permute=None))
     n = len(t["parents"])
     form = draw(st.sampled_from(["tree", "table", "table_", "file"]))
-    case = {"tree": t, "form": form}
+    case = {"tree": t, "form": form, "resort_with": draw(st.sampled_from(["sort_nodes", "sort_nodes_", "tree"])),
+            # file form: the root-repair option is irrelevant for a single-rooted file and must change nothing
+            "fix_roots": draw(st.sampled_from([False, False, "somas", "nearest"]))}
+    if form == "tree" and n >= 2 and draw(st.integers(0, 2)) == 0:
+        # a tree object whose root is not node 0: what redirect_tree(sort=False) hands out
+        case["reroot_first"] = draw(st.integers(1, n - 1))
     if form != "tree":
         if draw(st.booleans()):
             case["ids"] = draw(st.lists(st.integers(0, 10 ** 5), min_size=n, max_size=n, unique=True))
@@ -86,6 +91,15 @@ def run_case(case, ctx):
         ctx.cls("already-sorted" if already else "unsorted")
         ctx.nontrivial(n >= 4 and not already and has_furc)
         tree = gen_tree.build_tree(t)
+        if "reroot_first" in case:
+            from swcgeom.core import redirect_tree
+
+            tree = redirect_tree(tree, case["reroot_first"], sort=False)
+            ctx.cls("tree-object-with-root-not-at-0")
+            # from here on the re-rooted tree is the input: its own table is what sorting must relabel
+            t = dict(t, parents=[int(v) for v in tree.pid()], type=[int(v) for v in tree.type()])
+            ch = models.children(t["parents"])
+            max_deg = max(len(c) for c in ch)
         before = {k: v.copy() for k, v in tree.ndata.items()}
         out = sort_tree(tree)
         for k, v in before.items():
@@ -136,7 +150,13 @@ def run_case(case, ctx):
         _check_relabelling(ctx, t, got, form)
         ctx.check(bool(is_sorted((out["id"].to_numpy(), out["pid"].to_numpy()))),
                   f"{form}/is_sorted-agrees", "is_sorted says False")
-        again = sort_nodes(out)
+        how = case.get("resort_with", "sort_nodes")
+        ctx.cls("resort-with:" + how)
+        if how == "sort_nodes_":
+            again = out.copy(deep=True) if form == "table_" else out  # the copying form's result is ours to edit
+            sort_nodes_(again)
+        else:
+            again = sort_nodes(out)
         _check_relabelling(ctx, t, {c: again[c].tolist() for c in again.columns}, f"{form}/resort")
         if max_deg <= 1:
             ctx.cls("no-furcation-fixed-point")
@@ -148,7 +168,9 @@ def run_case(case, ctx):
     for i in range(n):
         lines.append(" ".join(str(cols[c][i]) for c in ("id", "type", "x", "y", "z", "r", "pid", "tag", "w")))
     text = "\n".join(lines) + "\n"
-    df, _ = read_swc(io.StringIO(text), extra_cols=["tag", "w"], sort_nodes=True)
+    fix = case.get("fix_roots", False)
+    ctx.cls(f"file:fix_roots={fix}")
+    df, _ = read_swc(io.StringIO(text), extra_cols=["tag", "w"], sort_nodes=True, fix_roots=fix)
     got = {c: df[c].tolist() for c in df.columns}
     ctx.check(set(got) >= {"id", "pid", "tag", "w"}, "file/columns-kept", lambda: f"{list(got)}")
     # radii may be general float32 values: the text carries their repr, compare as float32
@@ -159,5 +181,6 @@ SUBCHECKS = [
     Sub("relabel", case_strategy, run_case, quick=2000, thorough=30000, shards_quick=4,
         required={"form:tree": 100, "form:table": 100, "form:table_": 100, "form:file": 100,
                   "root-not-row-0": 100, "noncontiguous-ids": 100, "unsorted": 200,
-                  "no-furcation-fixed-point": 10}),
+                  "no-furcation-fixed-point": 10, "tree-object-with-root-not-at-0": 60,
+                  "resort-with:sort_nodes_": 60, "file:fix_roots=somas": 30, "file:fix_roots=nearest": 30}),
 ]
